@@ -44,6 +44,7 @@ type UnitResult struct {
 }
 
 func (w *World) newUnit(pi *PkgInfo, fn *ssa.Function, c *Contract) *Unit {
+	w.curUnitPkg = pi // library contracts written in the unit's own contract file take precedence (see contractFor)
 	u := &Unit{w: w, pkg: pi, fn: fn, c: c, ctx: NewSMTCtx(), counters: map[string]int{}, hidMemo: map[string]Term{}, famSort: map[string]string{}, written: map[string]bool{}, subSeen: map[string]bool{}, closures: map[string]*ClosureV{}, assumptionsUsed: map[string]bool{}}
 	u.hids = []hidRec{{kind: 0}}
 	return u
